@@ -124,6 +124,31 @@ def c01a(prog, rep):
                     users.append(c)
         rep.check(len(users) == 1 and (users[0].callee or "").endswith("LogicalLinesReconstructor::reconstruct"), R, "buf-only-to-reconstruct",
                   "format_into_buf passes the output buffer to something other than the reconstructor: %s" % [c.callee for c in users])
+        # the text the lexer sees is the caller's text, untouched
+        lx = [c for c in fib.calls() if (c.callee or "").endswith("traits::Lexer::lex")]
+        if rep.check(len(lx) == 1, R, "one-lex-call", "format_into_buf calls the lexer %d times" % len(lx)):
+            o = Origins(fib, identity=()).of_operand(lx[0].args[1])
+            rep.check(o == {("param", 2, "input")} or (len(o) == 1 and all(x[0] == "param" and x[1] == 2 for x in o)), R, "lexer-sees-the-input", "the lexer is not handed the input text itself: %s" % sorted(map(str, o)),
+                      where=lx[0].where(), instance={"lex_argument": "the `input` parameter, no adapter"})
+    # every caller of format_into_buf passes its own input through unchanged and returns the buffer unchanged
+    callers = [c for c in prog.who_calls(FMT + "Formatter::format_into_buf") if c.body.crate.startswith("pasfmt")]
+    rep.floor(R, "callers of format_into_buf", len(callers), 1)
+    for c in callers:
+        b = c.body
+        oi = Origins(b, identity=()).of_operand(c.args[1])
+        rep.check(bool(oi) and all(x[0] == "param" for x in oi), R, "input-passed-through:" + short(b.npath), "%s hands format_into_buf a text derived by %s instead of its own parameter" % (short(b.npath), sorted(map(str, oi))),
+                  where=c.where(), instance={"caller": short(b.npath), "input": "parameter, no adapter"})
+        ob = Origins(b).of_operand(c.args[2])
+        makers = {x[1] for x in ob if x[0] == "call"}
+        others = []
+        for c2 in b.calls():
+            if c2.bb == c.bb or c2.bb in makers:
+                continue
+            for a in c2.args:
+                if a["k"] in ("copy", "move") and Origins(b).of_operand(a) & ob and "String" in b.locals[a["place"]["l"]]["ty"]:
+                    others.append(c2.callee)
+        rep.check(not others, R, "buffer-untouched:" + short(b.npath), "%s modifies or inspects the output buffer besides handing it to format_into_buf: %s" % (short(b.npath), others), where=c.where(),
+                  instance={"caller": short(b.npath), "other_uses_of_buffer": others})
 
 
 def c01b(prog, rep):
